@@ -7,10 +7,11 @@
 //! IMPL  per command: the calls the wrapped builder received, then `; <current_position>`;
 //!       finally `build` and the calls made by `build()`.  Several sequences per case are
 //!       separated by `|`.
-//! CASE  the commands; for arc commands additionally the radii and what lyon_geom's public API
-//!       computes for that arc at the adapter's current position (centre, `Arc::from()`, the
-//!       `(ctrl, to)` list).  The model decides the branches of `arc`/`arc_to` itself
-//!       (`is_straight_line`, `approx_eq(center)`, the `< 0.01` test) at Float32.
+//! CASE  the commands with their operands only (arc commands: `A x y rx ry rot large sweep`,
+//!       `a dx dy rx ry rot large sweep`, `R cx cy rx ry sweep rot`).  NO advice from lyon_geom: the
+//!       model computes the whole arc geometry itself (`Model/Path/SvgConcrete.lean` `geoF32`:
+//!       `is_straight_line`, `SvgArc::to_arc`, the atan2 start angle, `Arc::from`, `approx_eq(center)`,
+//!       the `< 0.01` test, the f64 pieces and their cast to f32).
 //! ORCL  (1) recorded calls are `(begin edge* end)*`; (2) an independent reference interpreter of
 //!       the SVG path rules (f64) predicts every command's calls and current point: relative
 //!       resolution, H/V, implicit move-to, close, smooth reflection only after a curve of the
@@ -22,9 +23,8 @@
 //! `arc`, two operand choices each); `exhm` the same after `M 1 2`; `blk` (thorough) all sequences of length 4 in blocks of 39; `rnd` random
 //! sequences up to length 60; `pat` short random sequences biased to curves/arcs/smooth/close;
 //! `svg_arc_e2e:32` arc-heavy sequences with NON-integer operands (radii around lyon's `S::EPSILON`,
-//! negative radii, any rotation, centre-form sweeps from 0 to beyond a turn) whose CASE line
-//! carries NO advice: the model computes the whole arc geometry itself
-//! (`Model/Path/SvgConcrete.lean`, the `Geo` instance the theorems of `Props/C15b.lean` are about).
+//! negative radii, any rotation, centre-form sweeps from 0 to beyond a turn).  In ALL families the
+//! model runs `concreteGeo` (the `Geo` instance the theorems of `Props/C15b.lean` are about).
 
 use lyon_path::builder::{Build, PathBuilder, SvgPathBuilder, WithSvg};
 use lyon_path::geom::{Arc, ArcFlags, SvgArc};
@@ -176,9 +176,8 @@ impl Cmd {
 
 /// What lyon_geom computes for an arc command at the adapter's current position: the centre
 /// (`SvgArc::to_arc().center`, or the given one for `arc`), `Arc::from()` and the `(ctrl, to)`
-/// pairs of `for_each_quadratic_bezier`.  Which branch `arc` / `arc_to` takes (straight line,
-/// centre == current, connecting line) is decided by the MODEL from these numbers and the
-/// operands, not here.
+/// pairs of `for_each_quadratic_bezier`.  Used by the ORACLE only (witness class of
+/// `svg.arc/current-point-sync`, centre-form end points); it is not handed to the model.
 #[derive(Clone, Debug)]
 struct AGeo {
     radii: Vector,
@@ -290,14 +289,8 @@ fn run(cmds: &[Cmd]) -> Run {
 // ---------------------------------------------------------------------------------------------
 // printing
 
-fn put_ageo(o: &mut Out, g: &AGeo) {
-    o.v(g.radii).p(g.center).p(g.start).u(g.quads.len() as u64);
-    for (c, t) in &g.quads {
-        o.p(*c).p(*t);
-    }
-}
-
-fn put_cmd(o: &mut Out, c: &Cmd, g: &Option<AGeo>) {
+/// the command with its operands only: NO lyon_geom advice (the model computes the arc geometry)
+fn put_cmd(o: &mut Out, c: &Cmd) {
     o.t(c.letter());
     match *c {
         Cmd::M(p) | Cmd::L(p) | Cmd::T(p) => {
@@ -322,37 +315,15 @@ fn put_cmd(o: &mut Out, c: &Cmd, g: &Option<AGeo>) {
         Cmd::Cr(a, b, v) => {
             o.v(a).v(b).v(v);
         }
-        Cmd::A(_, p) => {
-            o.p(p);
-        }
-        Cmd::Ar(_, v) => {
-            o.v(v);
-        }
-        Cmd::R(..) => {}
-    }
-    if c.is_arc() {
-        let radii = match c {
-            Cmd::A(a, _) | Cmd::Ar(a, _) => a.radii,
-            Cmd::R(_, r, _, _) => *r,
-            _ => vector(0., 0.),
-        };
-        put_ageo(o, &g.clone().unwrap_or(AGeo::none(radii)));
-    }
-}
-
-/// the command with its operands only (family `svg_arc_e2e`): no lyon_geom advice
-fn put_cmd_e2e(o: &mut Out, c: &Cmd) {
-    match *c {
         Cmd::A(a, p) => {
-            o.t("A").p(p).v(a.radii).f(a.rot).b(a.large).b(a.sweep);
+            o.p(p).v(a.radii).f(a.rot).b(a.large).b(a.sweep);
         }
         Cmd::Ar(a, v) => {
-            o.t("a").v(v).v(a.radii).f(a.rot).b(a.large).b(a.sweep);
+            o.v(v).v(a.radii).f(a.rot).b(a.large).b(a.sweep);
         }
         Cmd::R(center, radii, sweep, rot) => {
-            o.t("R").p(center).v(radii).f(sweep).f(rot);
+            o.p(center).v(radii).f(sweep).f(rot);
         }
-        _ => put_cmd(o, c, &None),
     }
 }
 
@@ -542,6 +513,9 @@ impl Ref {
             self.move_to(s, out);
         }
         let scale = 1.0 + mag(from).max(mag(to)).max(a.radii.x.abs() as f64).max(a.radii.y.abs() as f64).max(dist(from, to));
+        // f32 version of Props/C15b.lean `svg_arc_to_semantics_real` (exact over the reals), explicit
+        // rounding bound: the chain starts within `tol` of the current point and ends within `tol`
+        // of the target, `tol = 4e-3 * (1 + max(|from|, |to|, |rx|, |ry|, |to - from|))` (+ `Ref::tol`)
         let tol = 4e-3 * scale;
         out.push(Exp::ArcChain { from, to, tol, or_line });
         self.cur = to;
@@ -635,6 +609,105 @@ impl Ref {
         }
         out
     }
+}
+
+/// Centre-form `arc(center, radii, sweep, x_rotation)` issued at `cur` (f32 values), checked against
+/// an independent f64 evaluation of what Props/C15b.lean `svg_arc_semantics_real` states over the
+/// reals: the start angle is `atan2` of the un-rotated, un-scaled offset of `cur`; the calls are
+/// `begin(start)` (no sub-path open) / `line_to(start)` (start less than 0.1 away) / nothing, then
+/// `ceil(min(|sweep|, 2 pi) / (pi/4))` quadratics, the last one ending at the ellipse point at
+/// `start_angle + sweep` for `|sweep| <= 2 pi` and back at `start` beyond a turn.
+/// ROUNDING BOUND (explicit): every compared point within
+///     `CENTER_ARC_ULPS * f32::EPSILON * (1 + |center| + |cur| + rmax) * (1 + rmax / rmin) * (1 + |sweep|)`
+/// of its f64 value: `f32::EPSILON * magnitude` is the rounding of one f32 operation; `rmax / rmin`
+/// is the conditioning of the start angle (the offset is divided by the radii before `atan2`, so a
+/// rounding error along the short axis is magnified by the ratio when mapped back to the ellipse);
+/// the angle error is carried over `sweep`.  Not applied to radii that are zero / not finite, nor
+/// when nothing was emitted (arc skipped: `approx_eq(center)`; or no connecting line and no piece).
+/// Largest error observed over 1.2e5 centre-form arcs of the thorough tier: 0.48 of the unit
+/// `f32::EPSILON * (...)`, i.e. 17 times below the bound.
+const CENTER_ARC_ULPS: f64 = 8.0;
+
+fn center_arc_check(cur: Point, open: bool, center: Point, radii: Vector, sweep: f32, rot: f32, got: &[Call]) -> Option<String> {
+    let (rx, ry) = (radii.x as f64, radii.y as f64);
+    if !(rx != 0.0 && ry != 0.0 && rx.is_finite() && ry.is_finite()) || got.is_empty() {
+        return None;
+    }
+    let (cx, cy) = (center.x as f64, center.y as f64);
+    let (px, py) = (cur.x as f64, cur.y as f64);
+    let (phi, sw) = (rot as f64, sweep as f64);
+    let (dx, dy) = (px - cx, py - cy);
+    let (sn, cs) = ((-phi).sin(), (-phi).cos());
+    let v = (dx * cs - dy * sn, dy * cs + dx * sn);
+    let theta = (v.1 / ry).atan2(v.0 / rx);
+    let at = |a: f64| -> P2 {
+        let (ex, ey) = (rx * a.cos(), ry * a.sin());
+        (cx + ex * phi.cos() - ey * phi.sin(), cy + ey * phi.cos() + ex * phi.sin())
+    };
+    let two_pi = 2.0 * std::f64::consts::PI;
+    let start = at(theta);
+    let end = if sw.abs() <= two_pi { at(theta + sw) } else { start };
+    let n_expected = (sw.abs().min(two_pi) / std::f64::consts::FRAC_PI_4).ceil() as usize;
+    let rmax = rx.abs().max(ry.abs());
+    let rmin = rx.abs().min(ry.abs());
+    let tol = CENTER_ARC_ULPS * f32::EPSILON as f64 * (1.0 + mag((cx, cy)) + mag((px, py)) + rmax) * (1.0 + rmax / rmin) * (1.0 + sw.abs());
+    let mut k = 0;
+    if let Some(Call::E(_)) = got.get(k) {
+        k += 1;
+    }
+    match got.get(k) {
+        Some(Call::B(q)) => {
+            if open {
+                return Some(format!("begin inside an open sub-path: {:?}", got));
+            }
+            if dist(p2(*q), start) > tol {
+                return Some(format!("begin at {:?}, the ellipse point at the start angle is {:?} (bound {:e})", q, start, tol));
+            }
+            k += 1;
+        }
+        Some(Call::L(q)) => {
+            if !open {
+                return Some(format!("line_to without an open sub-path: {:?}", got));
+            }
+            if dist(p2(*q), start) > tol {
+                return Some(format!("line to {:?}, the ellipse point at the start angle is {:?} (bound {:e})", q, start, tol));
+            }
+            // the code draws the line only when the start is less than 0.1 away
+            if dist(p2(*q), (px, py)) >= 0.1 + tol {
+                return Some(format!("connecting line to {:?} from {:?}: 0.1 or more away", q, cur));
+            }
+            k += 1;
+        }
+        _ => {
+            if !open {
+                return Some(format!("no begin although no sub-path was open: {:?}", got));
+            }
+            // no connecting line: the start must be 0.1 or more away (up to rounding)
+            if dist((px, py), start) < 0.1 - tol {
+                return Some(format!("no connecting line although the start {:?} is less than 0.1 from {:?}", start, cur));
+            }
+        }
+    }
+    let mut n = 0;
+    let mut last = None;
+    while let Some(Call::Q(_, q)) = got.get(k) {
+        last = Some(*q);
+        n += 1;
+        k += 1;
+    }
+    if k != got.len() {
+        return Some(format!("unexpected calls {:?}", got));
+    }
+    if n != n_expected {
+        return Some(format!("{} quadratics, expected ceil(min(|sweep|, 2 pi) / (pi/4)) = {}", n, n_expected));
+    }
+    if let Some(q) = last {
+        let e = dist(p2(q), end);
+        if e > tol {
+            return Some(format!("last quadratic ends at {:?}, expected {:?} (distance {:e}, bound {:e})", q, end, e, tol));
+        }
+    }
+    None
 }
 
 fn well_nested(calls: &[Call]) -> Result<(), String> {
@@ -874,6 +947,16 @@ fn oracle_with(cmds: &[Cmd], r: &Run, orc: &mut Oracle, rounded: bool) {
             deferred.push((cl, class, d));
             rf.resync(got, r.curs[i], c.is_arc());
         }
+        // (2a) centre-form `arc`, the f32 version of Props/C15b.lean `svg_arc_semantics_real` with an
+        // explicit rounding bound (see `center_arc_check`)
+        if let Cmd::R(center, radii, sweep, rot) = c {
+            let cur0 = if i == 0 { point(0.0, 0.0) } else { r.curs[i - 1] };
+            if let Some(d) = center_arc_check(cur0, open_before, *center, *radii, *sweep, *rot, got) {
+                let d = format!("command {} ({:?}): {} in {}", i, c, d, fmt_seq(cmds));
+                orc.check(false, "svg.arc/center-endpoints", "generic", || d);
+                return;
+            }
+        }
         // (2b) arc commands: `current_position` is exactly the last point handed to the wrapped
         // builder (the adapter copies it: `current_position = curve.to`, `move_to(arc_start)`,
         // `line_to(to)`); Props/C15b.lean `svg_arc_to_semantics_real` / `svg_arc_semantics_real`.
@@ -1049,9 +1132,9 @@ fn features(seqs: &[Vec<Cmd>]) -> String {
     s
 }
 
-/// One case = one or more sequences.  The implementation is run once here to obtain the arc
-/// geometry for the CASE line (guarded); the closure reports that run (or re-runs it un-guarded
-/// if it panicked, so that the panic is reported through the normal path).
+/// One case = one or more sequences.  The implementation is run once here (guarded); the closure
+/// reports that run (or re-runs it un-guarded if it panicked, so that the panic is reported through
+/// the normal path).  The CASE line carries the commands' operands only.
 fn emit(ctx: &mut Ctx, family: &str, make: impl FnOnce(&mut Rng) -> (String, Vec<Vec<Cmd>>)) {
     ctx.case(family, move |rng| {
         let (kind, seqs) = make(rng);
@@ -1061,9 +1144,8 @@ fn emit(ctx: &mut Ctx, family: &str, make: impl FnOnce(&mut Rng) -> (String, Vec
             if si > 0 {
                 args.t("|");
             }
-            for (ci, c) in s.iter().enumerate() {
-                let g = runs.as_ref().and_then(|r| r[si].geos[ci].clone());
-                put_cmd(&mut args, c, &g);
+            for c in s.iter() {
+                put_cmd(&mut args, c);
             }
         }
         let triv = if seqs.iter().all(|s| s.is_empty()) { " trivial" } else { "" };
@@ -1144,7 +1226,7 @@ fn emit_e2e(ctx: &mut Ctx, make: impl FnOnce(&mut Rng) -> (String, Vec<Cmd>)) {
         let (kind, seq) = make(rng);
         let mut args = Out::new();
         for c in &seq {
-            put_cmd_e2e(&mut args, c);
+            put_cmd(&mut args, c);
         }
         let seqs = vec![seq.clone()];
         // one guarded run for the branch words of the tag (which paths of arc / arc_to were taken)
